@@ -88,6 +88,9 @@ pub struct Program {
     /// 1: calls on staging/ paths are scheduling points too
     #[serde(default)]
     pub vis: u8,
+    /// (thread, k): the k-th mutating filesystem call of that thread fails with EIO
+    #[serde(default)]
+    pub fault: Option<(usize, u64)>,
 }
 
 impl Program {
@@ -96,7 +99,11 @@ impl Program {
             "[{} init={:?}{}] {}",
             self.cfg.show(),
             self.init,
-            if self.vis == 1 { " staging-visible" } else { "" },
+            match (self.vis, self.fault) {
+                (1, _) => " staging-visible".to_string(),
+                (_, Some((t, k))) => format!(" EIO at mutating call #{k} of T{t}"),
+                _ => String::new(),
+            },
             self.threads.iter().enumerate().map(|(i, t)| format!("T{i}: {}", t.iter().map(|o| o.show()).collect::<Vec<_>>().join("; "))).collect::<Vec<_>>().join(" || ")
         )
     }
@@ -403,6 +410,14 @@ pub fn run_one(p: &Program, tmpl: &(Image, BTreeMap<String, Vec<u8>>), prefix: &
         // the store is damaged on purpose: reads legitimately return wrong bytes; only completion is required
         out.findings.retain(|f| f.0.contains(&"C15"));
     }
+    if p.fault.is_some() {
+        // everything found in a fault program also concerns fault containment
+        for f in out.findings.iter_mut() {
+            if !f.0.contains(&"C14") {
+                f.0.push("C14");
+            }
+        }
+    }
     out
 }
 
@@ -431,8 +446,10 @@ fn run_one_inner(p: &Program, tmpl: &(Image, BTreeMap<String, Vec<u8>>), prefix:
                 monitor_step(&dir_m, &cas_m, step, &mut store.lock().unwrap(), prev);
             }
         });
+        sched::set_fault(p.fault);
         sched::run_schedule(&dir, bodies, prefix, if p.vis == 1 { sched::visible_with_staging } else { sched::visible_default }, monitor, Duration::from_secs(60))
     };
+    let fired = sched::take_fault_fired();
     let mut step_findings = std::mem::take(&mut *step_store.lock().unwrap());
     let has_cleanup = p.threads.iter().flatten().any(|o| o.is_cleanup());
     // "clean-up never removes a blob that is referenced or that a concurrent put of the same content is committing" (C08)
@@ -445,7 +462,15 @@ fn run_one_inner(p: &Program, tmpl: &(Image, BTreeMap<String, Vec<u8>>), prefix:
     }
     findings.extend(step_findings);
     let h = hist.lock().unwrap().clone();
+    // the call record during which the injected failure happened (its error is legitimate; its effect is "old or new")
+    let faulted_rec: Option<usize> = match (&fired, p.fault) {
+        (Some((t, _)), Some((ft, _))) => h.iter().position(|r| r.thread == ft && r.inv < *t && *t < r.resp),
+        _ => None,
+    };
     if verbose {
+        if let Some((t, c)) = &fired {
+            println!("  injected EIO at clock {t}: {c}");
+        }
         for (i, pt) in exec.points.iter().enumerate() {
             println!("  point {i}: run {} (enabled {:?})", pt.label, pt.enabled);
         }
@@ -499,18 +524,89 @@ fn run_one_inner(p: &Program, tmpl: &(Image, BTreeMap<String, Vec<u8>>), prefix:
                 findings.push((if has_cleanup { vec!["C04", "C05", "C08"] } else { vec!["C04", "C05"] }, "final-read-failed".into(), d));
             }
             let any_failed = h.iter().any(|r| matches!(r.res, Res::Err(_)));
-            for r in &h {
+            for (ri, r) in h.iter().enumerate() {
                 if let Res::Err(e) = &r.res {
-                    let props: Vec<&'static str> = if r.op.is_read() { vec!["C05"] } else if r.op.is_cleanup() { vec!["C08"] } else { vec!["C05", "C04"] };
+                    if Some(ri) == faulted_rec && !e.starts_with("PANIC") {
+                        continue;
+                    }
+                    let mut props: Vec<&'static str> = if r.op.is_read() { vec!["C05"] } else if r.op.is_cleanup() { vec!["C08"] } else { vec!["C05", "C04"] };
+                    if p.fault.is_some() {
+                        props.push("C14");
+                    }
                     let class: String = e.chars().take_while(|c| *c != ':' && *c != '(').collect::<String>().split_whitespace().take(3).collect::<Vec<_>>().join("-");
                     findings.push((props, format!("op-failed/{}/{}", op_name(&r.op), class), format!("T{} `{}` failed under this interleaving: {e}", r.thread, r.op.show())));
                 }
             }
-            if !linearizable(&tmpl.1, &h, &final_map) {
+            // the operation that hit the injected failure may have taken effect or not
+            let mut variants: Vec<Vec<Rec>> = vec![h.clone()];
+            if let Some(ri) = faulted_rec {
+                if matches!(h[ri].res, Res::Err(_)) {
+                    let alts: Vec<Res> = match h[ri].op {
+                        TOp::Put { .. } => vec![Res::Unit],
+                        TOp::Remove { .. } => vec![Res::Bool(true)],
+                        TOp::RemoveRangeAll => (1..=3).map(Res::Count).collect(),
+                        _ => vec![],
+                    };
+                    for a in alts {
+                        let mut h2 = h.clone();
+                        h2[ri].res = a;
+                        variants.push(h2);
+                    }
+                }
+            }
+            if !variants.iter().any(|hv| linearizable(&tmpl.1, hv, &final_map)) {
                 let trace: Vec<String> = h.iter().map(|r| format!("T{} {} [{}..{}] -> {}", r.thread, r.op.show(), r.inv, r.resp, show_res(&r.res))).collect();
-                findings.push((vec!["C05"], "not-linearizable".into(), format!("no real-time-respecting order of the calls explains the results {trace:?} and the final contents {:?}", final_map.iter().map(|(k, v)| format!("{k}={}", util::show(v))).collect::<Vec<_>>())));
+                findings.push((if p.fault.is_some() { vec!["C05", "C14"] } else { vec!["C05"] }, "not-linearizable".into(), format!("no real-time-respecting order of the calls explains the results {trace:?} and the final contents {:?}", final_map.iter().map(|(k, v)| format!("{k}={}", util::show(v))).collect::<Vec<_>>())));
             }
             label = format!("{:?}", final_map.iter().map(|(k, v)| format!("{k}={}", String::from_utf8_lossy(v))).collect::<Vec<_>>());
+            if fired.is_some() {
+                label.push_str(if any_failed { " (faulted op failed)" } else { " (fault absorbed)" });
+            }
+            // fault programs whose faulted operation failed: the store must reopen; keys other than the failed operation's keep
+            // their value, the failed operation's key holds its old or its new value
+            if let (Some(ri), true) = (faulted_rec, any_failed) {
+                let others_ok = h.iter().enumerate().all(|(i, r)| i == ri || !matches!(r.res, Res::Err(_)));
+                if others_ok && matches!(h[ri].res, Res::Err(_)) {
+                    let cas2 = cas.clone();
+                    drop(cas2);
+                    drop(stats);
+                    drop(cas);
+                    match real::open_cas::<K>(&dir, &p.cfg.config()) {
+                        Err(e) => findings.push((vec!["C14"], "reopen-after-faulted-schedule-failed".into(), e)),
+                        Ok(c2) => {
+                            let failed_keys: Vec<String> = match h[ri].op {
+                                TOp::Put { k, .. } | TOp::Remove { k } => vec![<K as HKey>::make(k).unwrap()],
+                                TOp::RemoveRangeAll => vec!["a".into(), "b".into(), "c".into()],
+                                _ => vec![],
+                            };
+                            for kname in ["a", "b"] {
+                                let kk = kname.to_string();
+                                let got = c2.get(&kk).map(|o| o.map(|b| b.to_vec()));
+                                let want = final_map.get(&kk).cloned();
+                                let ok = match &got {
+                                    Ok(g) if *g == want => true,
+                                    Ok(g) if failed_keys.contains(&kk) => {
+                                        let newv = match h[ri].op {
+                                            TOp::Put { c, .. } => Some(keys::content(c).to_vec()),
+                                            _ => None,
+                                        };
+                                        // old value = any value the key held during the run is over-permissive; accept the new value, absence, or the initial value
+                                        *g == newv || g.is_none() || *g == tmpl.1.get(&kk).cloned()
+                                    }
+                                    _ => false,
+                                };
+                                if !ok {
+                                    findings.push((vec!["C14"], "reopen-after-faulted-schedule-differs".into(), format!("after reopening, key {kname:?} reads {:?}; before the reopen it held {:?} (failed operation: T{} `{}`)", got.as_ref().map(|o| o.as_ref().map(|v| util::show(v))).map_err(|e| util::err_chain(e)), want.as_ref().map(|v| util::show(v)), h[ri].thread, h[ri].op.show())));
+                                    break;
+                                }
+                            }
+                        }
+                    }
+                    util::rm_rf(&dir);
+                    util::rm_rf(&qdir);
+                    return RunOut { exec, findings, outcome_label: label };
+                }
+            }
             // exactness at quiescence (no failed op): cas/ == referenced contents (+ the planted orphan unless cleaned)
             if !any_failed {
                 let mut model = Model::<K>::default();
@@ -719,7 +815,7 @@ pub fn programs(tier: &str) -> Vec<(Program, Option<usize>)> {
                 if (a.is_cleanup() || b.is_cleanup()) && init != Init::AOrphan {
                     continue;
                 }
-                v.push((Program { cfg: big, init, threads: vec![vec![a], vec![b]], vis: 0 }, None));
+                v.push((Program { cfg: big, init, threads: vec![vec![a], vec![b]], vis: 0, fault: None }, None));
             }
         }
     }
@@ -733,7 +829,7 @@ pub fn programs(tier: &str) -> Vec<(Program, Option<usize>)> {
             if quick && (a.is_read() || b.is_read() || matches!(a, TOp::Abort { .. }) || matches!(b, TOp::Abort { .. })) {
                 continue;
             }
-            v.push((Program { cfg: one, init: Init::A, threads: vec![vec![a], vec![b]], vis: 0 }, None));
+            v.push((Program { cfg: one, init: Init::A, threads: vec![vec![a], vec![b]], vis: 0, fault: None }, None));
         }
     }
     use keys::{C_H, C_X, C_Y};
@@ -755,21 +851,44 @@ pub fn programs(tier: &str) -> Vec<(Program, Option<usize>)> {
                     continue;
                 }
                 let init = if c.is_cleanup() { Init::AOrphan } else { Init::AB };
-                v.push((Program { cfg: big, init, threads: vec![vec![*a], vec![*b], vec![*c]], vis: 0 }, Some(b3)));
+                v.push((Program { cfg: big, init, threads: vec![vec![*a], vec![*b], vec![*c]], vis: 0, fault: None }, Some(b3)));
             }
         }
     }
     // large content (150 KiB) whose only reference is removed / overwritten while another key receives the same content
     for (a, b) in [(TOp::Remove { k: 0 }, w(1, C_H)), (w(0, C_X), w(1, C_H)), (TOp::RemoveRangeAll, w(1, C_H)), (w(0, C_H), w(1, C_H)), (TOp::Get { k: 0 }, w(0, C_X))] {
-        v.push((Program { cfg: big, init: Init::AH, threads: vec![vec![a], vec![b]], vis: 0 }, None));
+        v.push((Program { cfg: big, init: Init::AH, threads: vec![vec![a], vec![b]], vis: 0, fault: None }, None));
     }
     // a damaged store (blob length differs from the index): readers against writers must still all return
     for (a, b) in [(TOp::Get { k: 0 }, w(0, C_Y)), (TOp::GetReader { k: 0 }, TOp::Remove { k: 0 }), (TOp::GetRange { k: 0 }, w(1, C_X)), (TOp::Get { k: 0 }, TOp::Checkpoint)] {
-        v.push((Program { cfg: big, init: Init::ADamaged, threads: vec![vec![a], vec![b]], vis: 0 }, None));
+        v.push((Program { cfg: big, init: Init::ADamaged, threads: vec![vec![a], vec![b]], vis: 0, fault: None }, None));
     }
     // transactions on the same key / same content with staging/ calls visible (C13: "a concurrent transaction on the same key is unaffected")
     for (a, b) in [(w(0, C_X), w(0, C_Y)), (w(0, C_X), TOp::Abort { k: 0, c: C_Y }), (TOp::Abort { k: 0, c: C_Y }, TOp::Abort { k: 0, c: C_Y }), (w(0, C_Y), w(1, C_Y))] {
-        v.push((Program { cfg: big, init: Init::A, threads: vec![vec![a], vec![b]], vis: 1 }, if tier == "quick" { Some(3) } else { Some(5) }));
+        v.push((Program { cfg: big, init: Init::A, threads: vec![vec![a], vec![b]], vis: 1, fault: None }, if tier == "quick" { Some(3) } else { Some(5) }));
+    }
+    // fault x schedule: the k-th mutating filesystem call of T0 fails (EIO) while the other threads run; every k up to the
+    // number of such calls a put / remove can make (programs whose k is never reached equal their fault-free version)
+    {
+        let q = tier == "quick";
+        let mut base: Vec<(Cfg, Init, Vec<Vec<TOp>>, Option<usize>, u64)> = vec![
+            (big, Init::A, vec![vec![w(0, C_Y)], vec![w(1, C_Y)], vec![TOp::Remove { k: 0 }]], Some(if q { 1 } else { 2 }), 12),
+            (big, Init::A, vec![vec![w(1, C_X)], vec![TOp::Remove { k: 0 }]], None, 12),
+            (big, Init::A, vec![vec![w(0, C_Y)], vec![TOp::Get { k: 0 }]], None, 12),
+            (one, Init::A, vec![vec![w(0, C_Y)], vec![w(1, C_Y)]], Some(if q { 1 } else { 3 }), 24),
+        ];
+        if !q {
+            base.push((big, Init::AB, vec![vec![TOp::Remove { k: 0 }], vec![w(1, C_Y)]], None, 8));
+            base.push((big, Init::A, vec![vec![w(0, C_Y)], vec![w(0, C_Y)], vec![TOp::Remove { k: 0 }]], Some(2), 12));
+            base.push((one, Init::A, vec![vec![w(0, C_Y)], vec![TOp::Remove { k: 0 }]], Some(3), 24));
+            base.push((one, Init::A, vec![vec![w(0, C_Y)], vec![w(1, C_Y)], vec![TOp::Remove { k: 0 }]], Some(1), 24));
+            base.push((big, Init::AOrphan, vec![vec![w(1, C_Y)], vec![TOp::DeleteOrphans]], None, 12));
+        }
+        for (cfg, init, threads, bound, kmax) in base {
+            for k in 1..=kmax {
+                v.push((Program { cfg, init, threads: threads.clone(), vis: 0, fault: Some((0, k)) }, bound));
+            }
+        }
     }
     // four actors (thorough): two writers on the same key/content, a remover and a reader or clean-up
     if tier != "quick" {
@@ -777,7 +896,7 @@ pub fn programs(tier: &str) -> Vec<(Program, Option<usize>)> {
             for c in [TOp::Remove { k: 0 }, TOp::RemoveRangeAll] {
                 for d in [TOp::Get { k: 0 }, TOp::GetReader { k: 0 }, TOp::Checkpoint, TOp::DeleteOrphans] {
                     let init = if d.is_cleanup() { Init::AOrphan } else { Init::AB };
-                    v.push((Program { cfg: big, init, threads: vec![vec![a], vec![b], vec![c], vec![d]], vis: 0 }, Some(2)));
+                    v.push((Program { cfg: big, init, threads: vec![vec![a], vec![b], vec![c], vec![d]], vis: 0, fault: None }, Some(2)));
                 }
             }
         }
@@ -789,15 +908,15 @@ pub fn programs(tier: &str) -> Vec<(Program, Option<usize>)> {
                 for a2 in [w(0, C_X), TOp::Remove { k: 0 }, TOp::Get { k: 0 }] {
                     for b1 in writers.iter() {
                         for b2 in [w(1, C_X), TOp::Remove { k: 1 }, TOp::Get { k: 0 }, TOp::Checkpoint] {
-                            v.push((Program { cfg: big, init, threads: vec![vec![*a1, a2], vec![*b1, b2]], vis: 0 }, Some(3)));
+                            v.push((Program { cfg: big, init, threads: vec![vec![*a1, a2], vec![*b1, b2]], vis: 0, fault: None }, Some(3)));
                         }
                     }
                 }
             }
         }
     } else {
-        v.push((Program { cfg: big, init: Init::A, threads: vec![vec![w(0, C_X), TOp::Get { k: 0 }], vec![w(0, C_Y), TOp::Remove { k: 0 }]], vis: 0 }, Some(2)));
-        v.push((Program { cfg: big, init: Init::AB, threads: vec![vec![TOp::Abort { k: 0, c: C_Y }, w(0, C_X)], vec![w(0, C_Y), TOp::Get { k: 0 }]], vis: 0 }, Some(2)));
+        v.push((Program { cfg: big, init: Init::A, threads: vec![vec![w(0, C_X), TOp::Get { k: 0 }], vec![w(0, C_Y), TOp::Remove { k: 0 }]], vis: 0, fault: None }, Some(2)));
+        v.push((Program { cfg: big, init: Init::AB, threads: vec![vec![TOp::Abort { k: 0, c: C_Y }, w(0, C_X)], vec![w(0, C_Y), TOp::Get { k: 0 }]], vis: 0, fault: None }, Some(2)));
     }
     v
 }
@@ -806,7 +925,11 @@ pub fn programs(tier: &str) -> Vec<(Program, Option<usize>)> {
 fn relevant(p: &Program, prop: &str) -> bool {
     let ops: Vec<&TOp> = p.threads.iter().flatten().collect();
     let writers = ops.iter().filter(|o| matches!(o, TOp::Put { .. } | TOp::Remove { .. } | TOp::RemoveRangeAll)).count();
+    if p.fault.is_some() {
+        return matches!(prop, "C14" | "C04");
+    }
     match prop {
+        "C14" => false,
         "C13" => ops.iter().any(|o| matches!(o, TOp::Abort { .. })) || p.vis == 1,
         // snapshots taken concurrently with writers: explicit checkpoints and rollover checkpoints (N=1)
         "C20" | "C02" => writers >= 1 && (ops.iter().any(|o| matches!(o, TOp::Checkpoint)) || p.cfg.n == 1),
@@ -839,7 +962,7 @@ pub fn run(tier: &str, slice: (u64, u64), seed: u64, prop: &str) -> WorkerResult
         }
     }
     if slice.0 == 0 {
-        res.completed.push(format!("{total} programs{}: all unordered pairs of single operations from a 17-op menu on 4 initial stores (N=10000) and on a=X with N=1 (rollover checkpoint inside every write): every interleaving, no preemption bound; three-thread programs with <= {} preemptions; two-ops-per-thread programs", if matches!(prop, "C13" | "C08" | "C07" | "C06" | "C20" | "C02") { format!(" (the subset of the following relevant to {prop})") } else { String::new() }, if tier == "quick" { 2 } else { 3 }));
+        res.completed.push(format!("{total} programs{}: all unordered pairs of single operations from a 17-op menu on 4 initial stores (N=10000) and on a=X with N=1 (rollover checkpoint inside every write): every interleaving, no preemption bound; three-thread programs with <= {} preemptions; two-ops-per-thread programs", if prop == "C14" { " (only the fault x schedule programs: T0's k-th mutating filesystem call fails with EIO, every k, while one or two other threads put / remove / read; of the following)".to_string() } else if matches!(prop, "C13" | "C08" | "C07" | "C06" | "C20" | "C02") { format!(" (the subset of the following relevant to {prop})") } else { String::new() }, if tier == "quick" { 2 } else { 3 }));
     }
     res
 }
